@@ -13,7 +13,8 @@ dest=$(python3 -c "import json;print(json.load(open('$M/meta.json'))['demo_dest'
 cmd=$(python3 -c "import json;print(json.load(open('$M/meta.json'))['demo_cmd'])")
 cp "$M/demo_test.go" "$WT/$dest"
 ( cd "$WT" && GOFLAGS= eval "$cmd" ) >/dev/null 2>&1; clean_demo=$?
-( cd "$WT" && git apply "$M/patch.diff" ) || { echo "RESULT $P $M patch-does-not-apply"; exit 3; }
+( cd "$WT" && { git apply "$M/patch.diff" 2>/dev/null || git apply --3way "$M/patch.diff" 2>/dev/null || patch -p1 -F3 -s < "$M/patch.diff"; } ) || { echo "RESULT $P $M patch-does-not-apply"; exit 3; }
+( cd "$WT" && git reset -q 2>/dev/null; find . -name '*.orig' -delete )
 ( cd "$WT" && GOFLAGS= go build ./... ) >/dev/null 2>&1; build=$?
 ( cd "$WT" && GOFLAGS= eval "$cmd" ) >/dev/null 2>&1; mut_demo=$?
 rm -f "$WT/$dest"
